@@ -9,6 +9,7 @@ use gvlib::contmap;
 use gvlib::deser;
 use gvlib::drops;
 use gvlib::hist;
+use gvlib::progs;
 use gvlib::searchrun;
 use serde_json::Value;
 
@@ -32,7 +33,9 @@ fn run_property(prop: &str, ctx: &mut Ctx) {
         "C11" => container::run_c11(ctx),
         "C12" => container::run_c12(ctx),
         "C13" => deser::run(ctx),
+        "C14" => progs::run_c14(ctx),
         "C15" => c15::run(ctx),
+        "C16" => progs::run_c16(ctx),
         "C17" => c17::run(ctx),
         "C18" => contmap::run(ctx),
         "C19" => drops::run(ctx),
@@ -44,7 +47,7 @@ fn run_property(prop: &str, ctx: &mut Ctx) {
     }
 }
 
-fn replay_case(prop: &str, v: &Value, st: &mut Stats) -> Result<(), String> {
+fn replay_case(prop: &str, v: &Value, st: &mut Stats, wd: &Watchdog) -> Result<(), String> {
     let case = if v.get("case").is_some() { &v["case"] } else { v };
     match prop {
         "C01" => hist::replay(hist::Which::C01, case, st),
@@ -54,7 +57,9 @@ fn replay_case(prop: &str, v: &Value, st: &mut Stats) -> Result<(), String> {
         "C11" => container::replay_c11(case, st),
         "C12" => container::replay_c12(case, st),
         "C13" => deser::replay(case, st),
+        "C14" => progs::replay_c14(case, st, wd),
         "C15" => c15::replay(case, st),
+        "C16" => progs::replay_c16(case, st, wd),
         "C17" => c17::replay(case, st),
         "C18" => contmap::replay(case, st),
         "C19" => drops::replay(case, st),
@@ -108,7 +113,7 @@ fn main() {
             std::process::exit(2)
         });
         let mut st = Stats::new();
-        if let Err(e) = replay_case(&prop, &v, &mut st) {
+        if let Err(e) = replay_case(&prop, &v, &mut st, &ctx.watchdog.clone()) {
             eprintln!("replay failed: {}", e);
             std::process::exit(2);
         }
@@ -122,7 +127,7 @@ fn main() {
         let body = std::fs::read_to_string(f).unwrap_or_default();
         match serde_json::from_str::<Value>(&body) {
             Ok(v) => {
-                if let Err(e) = replay_case(&prop, &v, &mut st) {
+                if let Err(e) = replay_case(&prop, &v, &mut st, &ctx.watchdog.clone()) {
                     ctx.inconclusive.push(format!("replay file {} unusable: {}", f.display(), e));
                 }
             }
